@@ -1595,6 +1595,7 @@ func (p *pkg) statefulFunction(key string) string {
 		rts = []string{"unit"}
 	}
 	s.retCoq = strings.Join(rts, " * ")
+	s.sliceDiscipline(d)
 	body := s.stmts(d.Body.List, func() string {
 		if len(info.results) != len(s.named) {
 			s.fail(d, "function falls off its end without named results")
@@ -1653,7 +1654,8 @@ const statefulHeader = `(* Generated from the CURRENT source of /repo/packet_poo
    A method with a pointer receiver is a function of the receiver's fields (b_<field>) and its arguments; it
    returns the final values of the fields it assigns, then its results. Slices are lists (x[:0], make(_, 0, c)
    and nil are the empty list, append(x, e) = x ++ [e]; capacity is not modelled and never decides anything; a
-   slice compared with nil is refused). *programMap is an option of its membership test, exactly the function
+   slice compared with nil is refused; the translator enumerates every path of each function and refuses it when a
+   write through one slice could be seen through another, or a returned slice shares its array with a field). *programMap is an option of its membership test, exactly the function
    isPSIPayload takes in Gen/Preds.v. The map of accumulators is an abstract type with its operations as
    parameters: map_get (None = no entry), map_set, map_delete, map_keys_sorted (the keys in increasing order:
    what the range / append / sort.Ints idiom computes). A local obtained by the lookup-or-create idiom is tied
@@ -1716,4 +1718,352 @@ func (p *pkg) emitStateful() string {
 		isolate(key, func() string { return p.statefulFunction(key) })
 	}
 	return b.String()
+}
+
+// ---------- slice discipline ----------
+//
+// Reading slices as lists is sound only while no write through one slice header is visible through another.
+// sliceDiscipline enumerates every path through a function body (conditions are treated as free) and follows,
+// per path, which backing array each slice variable / receiver field refers to:
+//   * `w = append(v, ...)` writes behind len(v): if v was cut shorter (v[:0]) the other names of that array lose
+//     their contents (stale: any later use, including being returned or being a field's final value, is refused);
+//     otherwise they are frozen (they may be read, but not appended to or cut);
+//   * at every return a returned slice must not share its array with a slice field of the receiver (the next call
+//     could overwrite what was handed out).
+// Anything it cannot follow is refused. The check is per call; arrays reached through map entries are not followed.
+
+type aslice struct {
+	arr                  int
+	short, stale, frozen bool
+}
+
+type astate struct {
+	v    map[string]aslice
+	next *int
+}
+
+func (a *astate) clone() *astate {
+	c := &astate{v: map[string]aslice{}, next: a.next}
+	for k, x := range a.v {
+		c.v[k] = x
+	}
+	return c
+}
+
+type discipline struct {
+	s      *sf
+	d      *ast.FuncDecl
+	recv   string
+	fields map[string]bool // slice fields of the receiver, as "recv.f"
+	named  []string        // named slice results
+	paths  int
+}
+
+func isSliceType(e ast.Expr) bool {
+	at, ok := e.(*ast.ArrayType)
+	return ok && at.Len == nil
+}
+
+func (dc *discipline) fail(n ast.Node, format string, a ...interface{}) {
+	dc.s.fail(n, "slice discipline: "+format, a...)
+}
+
+// name returns the tracked name an expression denotes ("" if none).
+func (dc *discipline) name(e ast.Expr, st *astate) string {
+	switch x := e.(type) {
+	case *ast.ParenExpr:
+		return dc.name(x.X, st)
+	case *ast.Ident:
+		if _, ok := st.v[x.Name]; ok {
+			return x.Name
+		}
+	case *ast.SelectorExpr:
+		if id, ok := x.X.(*ast.Ident); ok && dc.recv != "" && id.Name == dc.recv && dc.fields[dc.recv+"."+x.Sel.Name] {
+			return dc.recv + "." + x.Sel.Name
+		}
+	}
+	return ""
+}
+
+// reads checks every tracked name mentioned in e.
+func (dc *discipline) reads(e ast.Node, st *astate) {
+	if e == nil {
+		return
+	}
+	ast.Inspect(e, func(n ast.Node) bool {
+		switch x := n.(type) {
+		case *ast.SelectorExpr:
+			if nm := dc.name(x, st); nm != "" {
+				if st.v[nm].stale {
+					dc.fail(x, "%s is used after its backing array was overwritten through another slice", nm)
+				}
+				return false
+			}
+		case *ast.Ident:
+			if nm := dc.name(x, st); nm != "" && st.v[nm].stale {
+				dc.fail(x, "%s is used after its backing array was overwritten through another slice", nm)
+			}
+		}
+		return true
+	})
+}
+
+func (dc *discipline) fresh(st *astate) aslice {
+	*st.next++
+	return aslice{arr: *st.next}
+}
+
+// value evaluates the slice-valued right-hand side e assigned to target (a tracked name or "").
+func (dc *discipline) value(e ast.Expr, target string, st *astate) (aslice, bool) {
+	switch x := e.(type) {
+	case *ast.ParenExpr:
+		return dc.value(x.X, target, st)
+	case *ast.Ident:
+		if x.Name == "nil" {
+			return aslice{}, true
+		}
+		if nm := dc.name(x, st); nm != "" {
+			dc.reads(x, st)
+			return st.v[nm], true
+		}
+		return aslice{}, false
+	case *ast.SelectorExpr:
+		if nm := dc.name(x, st); nm != "" {
+			dc.reads(x, st)
+			return st.v[nm], true
+		}
+		dc.reads(x, st)
+		return dc.fresh(st), false
+	case *ast.SliceExpr:
+		base := dc.name(x.X, st)
+		dc.reads(x, st)
+		if base == "" {
+			return dc.fresh(st), true
+		}
+		b := st.v[base]
+		if b.frozen {
+			dc.fail(x, "%s is cut after another slice of the same array was appended to", base)
+		}
+		b.short = true
+		return b, true
+	case *ast.CallExpr:
+		if id, ok := x.Fun.(*ast.Ident); ok {
+			switch id.Name {
+			case "make":
+				for _, a := range x.Args[1:] {
+					dc.reads(a, st)
+				}
+				return dc.fresh(st), true
+			case "append":
+				for _, a := range x.Args {
+					dc.reads(a, st)
+				}
+				base := dc.name(x.Args[0], st)
+				if base == "" {
+					return dc.fresh(st), true
+				}
+				b := st.v[base]
+				if b.frozen {
+					dc.fail(x, "append to %s after another slice of the same array was appended to", base)
+				}
+				if b.arr != 0 {
+					for n, o := range st.v {
+						if o.arr != b.arr || n == target {
+							continue
+						}
+						if n == base && base != target {
+							o.frozen = true
+						} else if n != base {
+							if b.short {
+								o.stale = true
+							} else {
+								o.frozen = true
+							}
+						}
+						st.v[n] = o
+					}
+				}
+				if b.arr == 0 {
+					return dc.fresh(st), true
+				}
+				return aslice{arr: b.arr, short: b.short}, true
+			}
+		}
+		dc.reads(x, st)
+		return dc.fresh(st), false
+	}
+	dc.reads(e, st)
+	return dc.fresh(st), false
+}
+
+func (dc *discipline) assign(lhs, rhs ast.Expr, define bool, st *astate) {
+	target := dc.name(lhs, st)
+	if id, ok := lhs.(*ast.Ident); ok && target == "" && rhs != nil {
+		// a new local becomes tracked when it receives a slice
+		probe := st.clone()
+		if _, isSlice := dc.value(rhs, id.Name, probe); isSlice {
+			target = id.Name
+		}
+	}
+	if target == "" {
+		dc.reads(rhs, st)
+		if _, isIdent := lhs.(*ast.Ident); !isIdent {
+			if ix, ok := lhs.(*ast.IndexExpr); ok {
+				if nm := dc.name(ix.X, st); nm != "" {
+					dc.fail(lhs, "element of %s assigned in place", nm)
+				}
+				dc.reads(ix.Index, st)
+			}
+		}
+		return
+	}
+	v, _ := dc.value(rhs, target, st)
+	st.v[target] = v
+}
+
+func (dc *discipline) ret(st *ast.ReturnStmt, a *astate) {
+	var returned []string
+	if len(st.Results) == 0 {
+		returned = dc.named
+	}
+	for _, r := range st.Results {
+		dc.reads(r, a)
+		if nm := dc.name(r, a); nm != "" {
+			returned = append(returned, nm)
+		}
+	}
+	dc.finish(st, returned, a)
+}
+
+func (dc *discipline) finish(n ast.Node, returned []string, a *astate) {
+	dc.paths++
+	if dc.paths > 4096 {
+		dc.fail(n, "too many paths")
+	}
+	for f := range dc.fields {
+		if a.v[f].stale {
+			dc.fail(n, "%s keeps a backing array that was overwritten through another slice", f)
+		}
+	}
+	for _, r := range returned {
+		x := a.v[r]
+		if x.stale {
+			dc.fail(n, "%s is returned after its backing array was overwritten through another slice", r)
+		}
+		for f := range dc.fields {
+			if r != f && x.arr != 0 && a.v[f].arr == x.arr {
+				dc.fail(n, "the returned slice %s shares its backing array with %s: a later call could overwrite it", r, f)
+			}
+		}
+	}
+}
+
+func (dc *discipline) exec(list []ast.Stmt, a *astate, k func(*astate)) {
+	if len(list) == 0 {
+		k(a)
+		return
+	}
+	rest := func(b *astate) { dc.exec(list[1:], b, k) }
+	switch st := list[0].(type) {
+	case *ast.ReturnStmt:
+		dc.ret(st, a)
+	case *ast.BlockStmt:
+		dc.exec(st.List, a, rest)
+	case *ast.EmptyStmt:
+		rest(a)
+	case *ast.DeclStmt:
+		for _, sp := range st.Decl.(*ast.GenDecl).Specs {
+			vs, ok := sp.(*ast.ValueSpec)
+			if !ok {
+				continue
+			}
+			for i, id := range vs.Names {
+				if i < len(vs.Values) {
+					dc.assign(id, vs.Values[i], true, a)
+				} else if vs.Type != nil && isSliceType(vs.Type) {
+					a.v[id.Name] = aslice{}
+				}
+			}
+		}
+		rest(a)
+	case *ast.AssignStmt:
+		if len(st.Lhs) == len(st.Rhs) {
+			for i := range st.Lhs {
+				dc.assign(st.Lhs[i], st.Rhs[i], st.Tok == token.DEFINE, a)
+			}
+		} else {
+			for _, r := range st.Rhs {
+				dc.reads(r, a)
+			}
+			for _, l := range st.Lhs {
+				if nm := dc.name(l, a); nm != "" {
+					a.v[nm] = dc.fresh(a)
+				}
+			}
+		}
+		rest(a)
+	case *ast.IncDecStmt:
+		dc.reads(st.X, a)
+		rest(a)
+	case *ast.ExprStmt:
+		dc.reads(st.X, a)
+		rest(a)
+	case *ast.IfStmt:
+		if st.Init != nil {
+			dc.exec([]ast.Stmt{st.Init}, a, func(*astate) {})
+		}
+		dc.reads(st.Cond, a)
+		b := a.clone()
+		dc.exec(st.Body.List, a, rest)
+		dc.exec(elseList(st), b, rest)
+	case *ast.SwitchStmt:
+		dc.exec(append([]ast.Stmt{dc.s.t.switchToIf(st)}, list[1:]...), a, k)
+	case *ast.RangeStmt:
+		dc.reads(st.X, a)
+		// zero, one and two iterations
+		zero, one := a.clone(), a.clone()
+		rest(zero)
+		dc.exec(st.Body.List, one, func(b *astate) {
+			two := b.clone()
+			rest(b)
+			dc.exec(st.Body.List, two, rest)
+		})
+	default:
+		dc.fail(list[0], "unsupported statement %T", list[0])
+	}
+}
+
+func (s *sf) sliceDiscipline(d *ast.FuncDecl) {
+	dc := &discipline{s: s, d: d, recv: s.recv, fields: map[string]bool{}}
+	n := 0
+	a := &astate{v: map[string]aslice{}, next: &n}
+	if d.Recv != nil {
+		for _, f := range s.p.structs[s.info.recv].Fields.List {
+			if isSliceType(f.Type) {
+				for _, id := range f.Names {
+					nm := s.recv + "." + id.Name
+					dc.fields[nm] = true
+					a.v[nm] = dc.fresh(a)
+				}
+			}
+		}
+	}
+	for _, f := range d.Type.Params.List {
+		if isSliceType(f.Type) {
+			for _, id := range f.Names {
+				a.v[id.Name] = dc.fresh(a)
+			}
+		}
+	}
+	if d.Type.Results != nil {
+		for _, f := range d.Type.Results.List {
+			if isSliceType(f.Type) {
+				for _, id := range f.Names {
+					a.v[id.Name] = aslice{}
+					dc.named = append(dc.named, id.Name)
+				}
+			}
+		}
+	}
+	dc.exec(d.Body.List, a, func(b *astate) { dc.finish(d, dc.named, b) })
 }
